@@ -10,7 +10,7 @@ package sql
 //@   let oldHas := old(disk_has[id])
 //@   let oldVal := old(disk_val[id])
 //@   requires p != nil && p.db != nil
-//@   modifies n_begin, tx_open, txw_has, txw_val, n_open, n_exec, n_dbcommit, commit_err, disk_has, disk_val, n_rollback, row_err, row_has, row_val, scan_fault
+//@   modifies n_begin, tx_open, txw_has, txw_val, n_open, n_exec, n_dbcommit, commit_err, disk_has, disk_val, n_rollback, row_err, row_has, row_val, scan_fault, stmt_q, stmt_tx
 //@   // a crash at any driver-call boundary leaves this log at the old or at the new checkpoint, every other log untouched
 //@   crash_invariant[C06.ci] (disk_has[id] == oldHas && disk_val[id] == oldVal) || (disk_has[id] && disk_val[id] == c)
 //@   crash_invariant[C06.ci,C12.sq] forall k string :: k != id ==> disk_has[k] == old(disk_has[k]) && disk_val[k] == old(disk_val[k])
@@ -32,7 +32,7 @@ package sql
 //@   opt mode=interference
 //@   returns (werr, seen, gerr, serr)
 //@   requires p != nil && p.db != nil
-//@   modifies n_begin, tx_open, txw_has, txw_val, n_open, n_exec, n_dbcommit, commit_err, disk_has, disk_val, n_rollback, row_err, row_has, row_val, scan_fault, beg_has, beg_val
+//@   modifies n_begin, tx_open, txw_has, txw_val, n_open, n_exec, n_dbcommit, commit_err, disk_has, disk_val, n_rollback, row_err, row_has, row_val, scan_fault, beg_has, beg_val, stmt_q, stmt_tx
 //@   ensures[C05.sq] werr == nil && gerr == nil ==> beg_has[id] && seen == beg_val[id]
 //@   ensures[C05.sq] werr == nil && gerr != nil && code(gerr) == NotFound ==> !beg_has[id]
 //@   ensures[C05.sq] serr == nil ==> disk_has == beg_has[id := true] && disk_val == beg_val[id := c]
@@ -41,7 +41,7 @@ package sql
 //@ func verifScenarioRefuse
 //@   returns (werr, seen, gerr)
 //@   requires p != nil && p.db != nil
-//@   modifies n_begin, tx_open, txw_has, n_open, n_rollback, row_err, row_has, row_val, scan_fault
+//@   modifies n_begin, tx_open, txw_has, n_open, n_rollback, row_err, row_has, row_val, scan_fault, stmt_q, stmt_tx
 //@   ensures[C07.open] n_open == old(n_open)
 //@   ensures[C03.sq,C06.na]   disk_has == old(disk_has) && disk_val == old(disk_val) && n_dbcommit == old(n_dbcommit) && n_exec == old(n_exec)
 //@   ensures[C07.rd]   werr == nil && gerr == nil ==> old(disk_has[id]) && seen == old(disk_val[id])
